@@ -139,7 +139,10 @@ def perturb(rng, prof, kind):
         if 'gex' not in p or not any(g in p['kex'] for g in gen.GEX):
             return None
         old = p['gex']['sizes'][0]
-        p['gex']['sizes'] = [rng.choice([b for b in (1024, 1536, 3072, 4096) if b != old])]
+        # another standard size, or the same size give or take a few bits (a different modulus size is a different size)
+        p['gex']['sizes'] = [rng.choice([b for b in (1024, 1536, 3072, 4096) if b != old] + [old - 1, old + 4, old - 7, old + 8])]
+        if p['gex']['sizes'][0] not in (1024, 1536, 3072, 4096):
+            p['gex']['style'] = 'roundup'      # a size off the probe grid can only be measured on a server that rounds requests up to what it has
         return p, 'dh'
     if kind == 'gex_one':
         algs = [g for g in gen.GEX if g in p['kex']]
